@@ -28,7 +28,7 @@ func init() {
 		Rule: "each case builds a dependency graph from filter references: 1–3 referenced integrations (log- or tx-indexing) and a dependent whose filter (on an event input or on a block field) references their tables; optionally a second referrer of the same integration, or a second-level dependent that looks up the first dependent's table; optionally two sources of one chain (every integration on both, dependency judged per source); optionally reorganisations (position monitor only). " +
 			"tasks are stepped in adversarial orders: dependents first while references never started, only some references started, references started on the other source only, references lagging by random amounts, references ahead, a reference stepping between the dependent's two transactions (hook), a reference rolling back after a reorganisation while the dependent trails. " +
 			"The monitor runs around every step of every dependent, also while settling: the highest block a commit records or writes rows for is at most the referenced integration's position for the same source (the larger of its value when the step began and in the commit snapshot). " +
-			"signature = (graph shape, filter site, polarity, order pattern, sources, reorgs); trivial = the dependent never committed. Every reorg case ends with an episode in which everything one dependent references digests a reorganisation inside that dependent's step (right before its own unwind statement); there the bound is the references' committed positions at the step's last dependency read.",
+			"signature = (graph shape, filter site, polarity, order pattern, sources, reorgs); trivial = the dependent never committed. Every reorg case ends with four rounds of an episode in which everything one dependent references digests a reorganisation inside that dependent's step (right before its own unwind statement); there the bound is the references' committed positions at the step's last dependency read.",
 		Assumptions: []string{
 			"the dependency is per source: all integrations of a graph are attached to the same sources",
 			"reference lookups see the referenced table as of the dependent's step, which may already hold later blocks (and rows of the other source): rows whose value the own source's referenced rows hold at or below the row's own block are required, rows whose value is referenced anywhere in the final tables are allowed (reversed for !contains)",
@@ -547,7 +547,7 @@ func c05Run(c *vk.Case) {
 			started[s][i] = true
 		}
 	}
-	if reorgs && len(c.Res.Violations) == 0 {
+	for episode := 0; episode < 4 && reorgs && len(c.Res.Violations) == 0; episode++ {
 		// a reference digests a reorganisation INSIDE a dependent's step: the dependent has read its own position and is
 		// waiting for the blocks that will show it the reorganisation when the reference rewinds and commits; coming
 		// round again, the dependent asks for its dependencies' positions anew and has to go by what is committed then
